@@ -222,9 +222,7 @@ func (s *Sess) Text(who, l, f int) []byte {
 // Send performs a send op and records it.
 func (s *Sess) Send(who int, text []byte) *SentText {
 	st := &SentText{Who: who, Text: string(text), Encrypted: s.W.P[who].C.IsEncrypted()}
-	if len(text) >= 12 {
-		st.Token = string(text[:12])
-	}
+	st.Token = findToken(text)
 	c := s.W.Send(who, text)
 	st.Err, st.Call = c.Err, c
 	s.Texts[who] = append(s.Texts[who], st)
@@ -267,6 +265,14 @@ func (s *Sess) Exec(op SOp) *sim.Call {
 		w.Drop(who, op.I)
 	case "query":
 		return w.Query(who)
+	case "sess":
+		w.AgeClock(0, 3*time.Minute)
+		w.AgeClock(1, 3*time.Minute)
+		w.Query(who)
+		s.Exec(SOp{K: "flush"})
+	case "peerend":
+		w.End(1 - who)
+		s.Exec(SOp{K: "flush"})
 	case "end":
 		return w.End(who)
 	case "smp":
